@@ -15,7 +15,8 @@ argument, for the normal and for every exceptional exit.
              `history_quiet`             any interleaving of mutations of the two
              `twice_separate`, `chain_separate`   the same formula transformed twice; a transformation of a result
   HEADER     `description_entry`, `description_chain`   `add_description` on the real string keys
-  `!=` LOOP  `neq_private_copy`, …       (Props/C19/Neq.lean)
+  `!=` LOOP, BUILDERS   Props/C19/Neq.lean (`builder_leaves_caller_objects`, `neq_loop_restores_working_list`, …)
+  REFINEMENT            Props/C19/Refine.lean (the returned object, observed deeply, is what the pure models of C05 / C09 compute)
 
 The proofs go through ONE discipline (`Lemmas/HeapFrame.lean: good_runActs`): after `newF = CNF()` the code only
 executes statements that write through `newF`; each transformation is an instance (`Lemmas/HeapTrans.lean: good_apply`).
